@@ -1316,6 +1316,14 @@ def set_method(it, o: set, name):
         return Native('set.remove', rm)
     if name == 'clear':
         return Native('set.clear', lambda it2, a, k: (log(), o.clear())[1])
+    if name == 'pop':
+        def pop(it2, a, k):
+            if not o:
+                it2.throw('KeyError', 'pop from an empty set')
+            x = sorted(o, key=repr)[0]
+            o.remove(x)
+            return x
+        return Native('set.pop', pop)
     if name == 'update':
         return Native('set.update', lambda it2, a, k: (log(), [o.update(it2.iterate(x)) for x in a])[1] and None)
     if name == 'copy':
